@@ -490,6 +490,14 @@ def _restore_never_unsets(ctx, mod, meths):
 
 def _typed_store(ctx, mod, meths):
     n = 0
+    # the converting setter and the private helpers that only it calls (a split of _set_item into phases moves the stores)
+    setter_family = {"_set_item"}
+    for _ in range(2):
+        for nm_, m_ in meths.items():
+            if nm_.startswith("_") and nm_ not in setter_family:
+                callers = {q_ for q_, f_ in meths.items() if any(isinstance(c.func, ast.Attribute) and c.func.attr == nm_ and unparse(c.func.value) == "self" for c in calls_in(f_))}
+                if callers and callers <= setter_family:
+                    setter_family.add(nm_)
     for nm, m in meths.items():
         defs = None
         for a in walk_local(m):
@@ -503,8 +511,8 @@ def _typed_store(ctx, mod, meths):
             if tgt is None:
                 continue
             n += 1
-            if nm == "_set_item":
-                ok, why = True, "inside _set_item (the converting setter)"
+            if nm in setter_family:
+                ok, why = True, "inside _set_item (the converting setter) or a helper only it calls"
             else:
                 v = val
                 if isinstance(v, ast.Name):
